@@ -134,7 +134,9 @@ void vr_case(uint64_t seed, uint64_t idx, int profile)
         pc = perchunk[vr_below(&r, 2)];
         if (obj_sz <= 200 && vr_chance(&r, 1, 2)) pc = 4096 / obj_sz;     /* exactly one page per chunk */
     }
-    mp = cmi_mempool_create();
+    /* the pool struct comes from the library, or it is the caller's own storage with whatever was in it before */
+    bool own_storage = vr_chance(&r, 1, 3);
+    if (own_storage) { mp = malloc(sizeof *mp); memset(mp, 0xA5, sizeof *mp); VR_CNT("pools_in_previously_used_storage"); } else mp = cmi_mempool_create();
     cmi_mempool_initialize(mp, obj_sz, pc);
     uint64_t per = mp->incr_num;
     static const uint64_t chunk_targets[] = { 1, 2, 3, 63, 64, 65, 66, 128, 129, 130 };
@@ -157,7 +159,7 @@ void vr_case(uint64_t seed, uint64_t idx, int profile)
         VR_CNT("pools_reinitialised"); vr_fp_mix(0x11fe + obj_sz);
         history(&r, t2, 400);
     }
-    if (vr_nviol == 0) { cmi_mempool_destroy(mp); VR_CNT("pools_destroyed"); }
+    if (vr_nviol == 0) { if (own_storage) { cmi_mempool_terminate(mp); free(mp); } else cmi_mempool_destroy(mp); VR_CNT("pools_destroyed"); }
     if (ct >= 2) vr_mark_nontrivial();
     if (ct >= 64) VR_CNT("cases_crossing_64_chunks");
     if (idx % 37 == 0) vr_sample("profile=%d obj_sz=%zu objs_per_chunk=%" PRIu64 " (fits %" PRIu64 ") chunk_target=%" PRIu64 " ramp_to=%zu", profile, obj_sz, pc, per, ct, target);
